@@ -64,6 +64,8 @@ func init() {
 func runC10(p *chk.Prog, r *chk.Report) {
 	// a withdrawn Service leaves nothing behind for a later session to publish (PROTO-DELETE, shared with C09); a
 	// configuration the speaker refused is offered again (COMPARE-BEFORE-APPLY, shared with C18)
+	// the advertisements consulted are those of the pool that owns the addresses now (POOL-CURRENT, shared with C09)
+	c09PoolCurrent(p, r)
 	c09Rebuild(p, r)
 	c18Compare(p, r)
 	// the advertisements in force for a pool are all those that name or select it (ATTACH, shared with C08, C05)
